@@ -5,6 +5,7 @@ import (
 	"fmt"
 	"os"
 	"path/filepath"
+	"sort"
 	"strconv"
 	"time"
 )
@@ -276,6 +277,9 @@ func globRotated() []string {
 	var out []string
 	ms, _ := filepath.Glob(fsDir + "/audit-*.log")
 	out = append(out, ms...)
+	// oldest to newest = by time stamp = by name (filepath.Glob returns sorted names; the ghost file system lists in
+	// creation order, so sort here)
+	sort.Strings(out)
 	return out
 }
 
